@@ -456,6 +456,59 @@ def run(ctx):
     rule_mismatch(ctx)
     rule_ref(ctx)
     rule_xward(ctx)
+    rule_always(ctx)
+
+
+def rule_always(ctx):
+    R = "SW-ALWAYS"
+    ctx.rule(R, "whenever the gen part of the ppc is (re)built with distributed_slack, the weights are normalised again: the call of "
+                "_normalise_slack_weights in _build_gen_ppc depends on distributed_slack only (the gen rows are rebuilt from the "
+                "tables, a kept bus column would belong to the previous weights); the per-bus loop of "
+                "_extract_dist_slack_pq_results visits every xward bus (no return / break inside)")
+    fi = ctx.repo.func(f"{BG}:_build_gen_ppc")
+    pm = {c: p_ for p_ in ast.walk(fi.node) for c in ast.iter_child_nodes(p_)}
+    calls = [c for c in ast.walk(fi.node) if isinstance(c, ast.Call) and dotted(c.func) == "_normalise_slack_weights"]
+    if not calls:
+        ctx.fail("_build_gen_ppc: call of _normalise_slack_weights not found")
+    for c in calls:
+        conds = []
+        node = c
+        while node in pm:
+            par = pm[node]
+            if isinstance(par, (ast.If, ast.While)) and node is not par.test:
+                conds.append(par.test if node in par.body else ast.UnaryOp(op=ast.Not(), operand=par.test))
+            node = par
+        extra = sorted({nm for t in conds for nm in names_in(inline_locals(fi.node, t, keep=("distributed_slack",)))} - {"distributed_slack"})
+        ok = bool(conds) and not extra
+        ctx.ob(R, f"{BG}::_build_gen_ppc::normalise-guard", ok,
+               "normalisation runs whenever distributed_slack is set" if ok else
+               f"the normalisation also depends on {extra} (`{'; '.join(norm(t, 60) for t in conds)}`): in the runs where it is skipped "
+               "the bus contribution factors are those of an earlier weight vector", fi.loc(c))
+    fx = ctx.repo.func("pandapower.results_bus:_extract_dist_slack_pq_results")
+    loops = [n for n in fx.node.body if isinstance(n, ast.For)]
+    if not loops:
+        ctx.fail("_extract_dist_slack_pq_results: loop over the buses not found")
+    lp = loops[0]
+    exits = [x for x in ast.walk(lp) if isinstance(x, ast.Return)]
+    # break statements that leave the bus loop itself (not an inner loop)
+    def _breaks(sts, inner):
+        out = []
+        for st in sts:
+            if isinstance(st, ast.Break) and not inner:
+                out.append(st)
+            elif isinstance(st, (ast.For, ast.While)):
+                out += _breaks(st.orelse, inner)
+            else:
+                for fld in ("body", "orelse", "finalbody"):
+                    out += _breaks(getattr(st, fld, []) or [], inner)
+                for h in getattr(st, "handlers", []) or []:
+                    out += _breaks(h.body, inner)
+        return out
+    exits += _breaks(lp.body, False)
+    ctx.ob(R, "pandapower.results_bus::_extract_dist_slack_pq_results::bus-loop", not exits,
+           "every bus with a distributed-slack element is visited" if not exits else
+           f"`{norm(exits[0], 30)}` inside the loop over the buses ends the extraction at the first bus that meets the condition: elements "
+           "at the remaining buses keep their setpoint as result although they took part in the balancing", fx.loc(exits[0]) if exits else fx.loc(lp))
 
 
 def variants(repo):
@@ -467,6 +520,9 @@ def variants(repo):
     cj = "pandapower/pf/create_jacobian.py"
     V = Variant
     return [
+        V("normalisation skipped for a recycled ppc", bg, in_function("_build_gen_ppc", replace_once("    if distributed_slack:\n", '    recycled = isinstance(net["_options"].get("recycle", None), dict) and np.any(ppc["bus"][:, SL_FAC_BUS] != 0)\n    if distributed_slack and not recycled:\n')), "normalise-guard"),
+        V("early return in the xward bus loop", rb, in_function("_extract_dist_slack_pq_results", replace_once("        # now, distribute the variable part of the active power among the dist_slack elements\n", "        if total_weight == 0:\n            return\n")), "bus-loop"),
+        V("twin: zero-weight bus skipped with continue", rb, in_function("_extract_dist_slack_pq_results", replace_once("        # now, distribute the variable part of the active power among the dist_slack elements\n", "        if total_weight == 0:\n            continue\n")), None),
         V("gen weights not written", bg, in_function("_build_pp_gen", replace_once('    ppc["gen"][f:t, SL_FAC] = net["gen"]["slack_weight"].values[gen_is]\n', "")), "_build_pp_gen::gen.slack_weight"),
         V("xward weights without in-service mask", bg, in_function("_build_pp_xward", replace_once('net["xward"]["slack_weight"].values[xw_is]', 'net["xward"]["slack_weight"].values[:t - f]')), "_build_pp_xward::xward.slack_weight"),
         V("aux buses compared without the bus lookup", bg, replace_once("aux_buses_ppc = net[\"_pd2ppc_lookups\"][\"bus\"][aux_buses]", "aux_buses_ppc = aux_buses"), "ppc-numbering"),
